@@ -58,10 +58,19 @@ RULE = ("Case = equilibrium + point set + profiles. Equilibria: bundled example 
         "with psi -> s*psi + c, s in {1,-1,-0.5,2}) and synthetic polynomial flux functions (ellipse, Solov'ev; R0 0.8-8 m, "
         "a/R0 0.12-0.42, kappa 0.7-2.2, Z0 offset, uniform grids 20-60 x 20-60 with independent margins, optionally the axis on "
         "a grid node, psi_0 in [-5,3], D = psi_lcfs - psi_axis of either sign and 1e-2..10, psi_axis given off by 0..3 % of D so "
-        "that the clamp at 0 is active, LCFS polygon by brentq along 64-256 rays, either orientation, limiter or None). Points: a "
+        "that the clamp at 0 is active, LCFS polygon by brentq along 64-256 rays, either orientation, limiter or None; one third of them "
+        "up-down symmetric: Z0 = 0, z knots exactly antisymmetric (z_k = (2k-(nz-1))*h/2, nz odd in 3 of 4 so that z = 0 is a knot row), "
+        "both signs of D; symmetric ellipses with R0 on an r knot get psi from the exact knot offsets, so psi is also mirror "
+        "symmetric about r = R0 bit for bit). Points: a "
         "rank-1 lattice over the whole grid rectangle (40-160 points, offsets from the case), the magnetic axis, plus drawn points: uniform incl. the "
         "rectangle's edges and corners, polar around the magnetic axis (incl. the axis), beside LCFS polygon edges/vertices "
-        "(+-1e-12..2e-2 of the size), grid nodes; toroidal angles from the lattice and drawn (incl. 0, +-pi/2, pi); scalar adds 400 lattice + 100 "
+        "(+-1e-12..2e-2 of the size), grid nodes, points on the horizontal (z = +0.0 / -0.0 when Z0 = 0, r drawn) and vertical (r = R0, z drawn) line "
+        "through the axis - every symmetric case carries 8 such midplane and 4 axis-column points. On z = +-0.0 of a symmetric "
+        "equilibrium with odd nz B_r is exactly 0.0 for every r (verified numerically: 6090 of 6090 points; even nz: rounding noise, "
+        "ordinary points), on r = R0 of a symmetric on-knot ellipse B_z is exactly 0.0 (231 of 231; not for Solov'ev, which is not "
+        "mirror symmetric in R): there exactly one in-plane component vanishes, |B_pol| > 0, the basis is well defined and every "
+        "relation is demanded unchanged (class one-zero, counted per point; the degenerate rule tests hypot(B_r, B_z) only); "
+        "toroidal angles from the lattice and drawn (incl. 0, +-pi/2, pi); scalar adds 400 lattice + 100 "
         "near-axis points for psi_n >= 0 and the analytic flux. Profiles: Python "
         "callables (polynomial, Gaussian), raysect Function1D expressions, 2xN arrays as lists or ndarrays (knots 0..1 or 0..1.25, "
         "non-uniform; linear data -> exact; arbitrary data -> raysect's cubic Interpolator1DArray is the profile), outside values "
@@ -69,7 +78,8 @@ RULE = ("Case = equilibrium + point set + profiles. Equilibria: bundled example 
         "to the constructor AND psi_n <= 1. Non-trivial = the point set has decided points on both sides of the LCFS with an "
         "inside value different from the outside value, and (scalar, vector) at least one evaluated toroidal angle differs from 0, "
         "(basis: instead of the value condition) at least 10 non-degenerate points; distinct by case hash. Negative-sign equilibria, an active clamp, degenerate "
-        "basis points and every equilibrium / profile class are required classes.")
+        "basis points, symmetric equilibria of either sign, one-zero points (B_r = 0 and B_z = 0 in basis, visible v_p/v_n in vector) "
+        "and every equilibrium / profile class are required classes.")
 ASSUMPTIONS = [
     "inside the LCFS = inside the lcfs_polygon given to the constructor (crossing number, my own) AND psi_normalised <= 1 "
     "(the EFITLCFSMask definition quoted in the property's mechanism); points closer than 1e-9*size to a polygon edge accept either",
@@ -107,7 +117,9 @@ TOLERANCES = {
                         "products, error ~1e-16 at any field magnitude. Points with |B_pol| < 1e-12*max|B_pol| of the grid are "
                         "labelled degenerate (the in-plane direction is rounding noise of the finite differences there, and the "
                         "code returns zero vectors when B_pol == 0): only 'zero or unit' is demanded of p and n, and of a mapped "
-                        "velocity only the toroidal component",
+                        "velocity only the toroidal component; a ZeroDivisionError there (|B_pol|^2 underflows for 0 < |B_pol| < 1e-154, "
+                        "raysect normalise()/set_length) is tolerated and labelled degenerate:zero-division. Points where exactly ONE "
+                        "in-plane component is 0.0 are not degenerate (the rule looks at hypot(B_r, B_z))",
     "vector components": "1e-10*max(|v_t|,|v_p|,|v_n|) on each component of map_vector2d in my own basis (t = e_y, "
                          "p = B_pol/|B_pol|, n = p x t)",
     "rotation": "|map_vector3d(x,y,z) - Rz(atan2(y,x)) map_vector2d(sqrt(x^2+y^2), z)| <= 1e-10*|v| (degrees round trip ~1e-15)",
@@ -121,6 +133,8 @@ REQUIRED_LABELS = [l for l in [
     "scalar:analytic", "scalar:phi!=0",
     "basis:eq:example", "basis:eq:generomak", "basis:eq:synth:ellipse", "basis:eq:synth:solovev",
     "basis:sign:negative", "basis:sign:positive", "basis:degenerate", "basis:nodes", "basis:analytic-field",
+    "basis:symmetric:negative", "basis:symmetric:positive", "basis:one-zero:Br", "basis:one-zero:Bz",
+    "vector:symmetric:negative", "vector:symmetric:positive", "vector:one-zero",
     "vector:eq:example", "vector:eq:generomak", "vector:eq:synth:ellipse", "vector:eq:synth:solovev",
     "vector:sign:negative", "vector:sign:positive", "vector:outside:none", "vector:outside:vector", "vector:phi!=0",
 ] if not _ONLY or l.split(":")[0] in _ONLY]
@@ -137,6 +151,10 @@ def eq_spec(draw):
     if k != "synth":
         return {"kind": k, "s": draw(st.sampled_from([1.0, 1.0, -1.0, -0.5, 2.0])), "c": draw(st.sampled_from([0.0, 0.0, 1.5, -2.0]))}
     r0 = draw(st.floats(0.8, 8.0))
+    # "sym": up-down symmetric (Z0 = 0, z knots exactly antisymmetric, odd nz three times out of four): B_r is exactly 0.0 on z = 0
+    sym = draw(st.sampled_from([False, False, True]))
+    if sym:
+        return _sym_spec(draw, r0)
     return {"kind": "synth", "family": draw(st.sampled_from(["ellipse", "solovev"])),
             "R0": r0, "a": r0 * draw(st.floats(0.12, 0.42)), "kappa": draw(st.floats(0.7, 2.2)), "z0": draw(st.floats(-0.5, 0.5)),
             "nr": draw(st.integers(20, 60)), "nz": draw(st.integers(20, 60)),
@@ -150,15 +168,39 @@ def eq_spec(draw):
             "f0": draw(st.floats(-8.0, 8.0)), "falpha": draw(st.floats(-0.3, 0.3)), "nf": draw(st.integers(5, 40))}
 
 
+def _sym_spec(draw, r0):
+    nz = draw(st.integers(20, 60))
+    if draw(st.integers(0, 3)) != 0:
+        nz += 1 - nz % 2
+    mz = draw(st.floats(0.15, 1.0))
+    fam = draw(st.sampled_from(["ellipse", "solovev"]))
+    return {"kind": "synth", "family": fam, "sym": True,
+            "R0": r0, "a": r0 * draw(st.floats(0.12, 0.42)), "kappa": draw(st.floats(0.7, 2.2)), "z0": 0.0,
+            "nr": draw(st.integers(20, 60)), "nz": nz,
+            "margin": [draw(st.floats(0.15, 1.0)), draw(st.floats(0.15, 1.0)), mz, mz],
+            # ellipse with R0 on an r knot: psi is built from exact knot offsets, B_z is exactly 0.0 on r = R0
+            "axis_on_node": draw(st.booleans()) if fam == "ellipse" else draw(st.sampled_from([False, False, False, True])),
+            "psi0": draw(st.sampled_from([0.0, 0.0, 1.0, -3.0])) + draw(st.floats(-2.0, 2.0)),
+            "D": draw(st.sampled_from([1.0, -1.0])) * 10 ** draw(st.floats(-2.0, 1.0)),
+            "eps": draw(st.sampled_from([0.0, 0.0, 1e-3, 0.01, 0.03])),
+            "nrays": draw(st.sampled_from([64, 64, 64, 96, 96, 128, 128, 200, 256])),
+            "phase": draw(st.floats(0.0, 1.0)), "cw": draw(st.booleans()), "limiter": draw(st.booleans()),
+            "f0": draw(st.floats(-8.0, 8.0)), "falpha": draw(st.floats(-0.3, 0.3)), "nf": draw(st.integers(5, 40))}
+
+
 _PHI = [0.0, 0.0, math.pi / 2, -math.pi / 2, math.pi, -math.pi, 3.0, -2.0, 1e-9]
 
 
 @st.composite
 def point_spec(draw):
-    t = draw(st.sampled_from(["u", "u", "ax", "lcfs", "lcfs", "node"]))
+    t = draw(st.sampled_from(["u", "u", "ax", "lcfs", "lcfs", "node", "mid", "vline"]))
     phi = draw(st.one_of(st.sampled_from(_PHI), st.floats(-math.pi, math.pi)))
     if t == "u":
         return ["u", draw(_mix(0.0, 1.0, [0.0, 1.0, 0.5])), draw(_mix(0.0, 1.0, [0.0, 1.0, 0.5])), phi]
+    if t == "mid":    # on the horizontal line through the axis (z = +0.0 / -0.0 for a symmetric equilibrium), r drawn
+        return ["mid", draw(st.floats(0.0, 1.0)), draw(st.sampled_from([0.0, -0.0])), phi]
+    if t == "vline":  # on the vertical line through the axis, z drawn
+        return ["vline", draw(st.floats(0.0, 1.0)), 0.0, phi]
     if t == "ax":
         return ["ax", draw(_mix(0.0, 0.3, [0.0, 0.0, 1e-9, 1e-3])), draw(st.floats(0.0, 6.283)), phi]
     if t == "lcfs":   # vertex fraction, position along the edge, signed displacement along the direction from the axis
@@ -294,16 +336,28 @@ def _synth_args(spec):
     zlo = verts[:, 1].min() - m[2] * 0.5 * ext_z
     zhi = verts[:, 1].max() + m[3] * 0.5 * ext_z
     nr, nz = spec["nr"], spec["nz"]
+    sym = spec.get("sym", False)
+    xoff = None
+    if sym:
+        zhi = max(abs(verts[:, 1].min()), abs(verts[:, 1].max())) + m[2] * 0.5 * ext_z
+        zlo = -zhi
     if spec["axis_on_node"]:     # shift the grid (by less than one step) so that (R0, Z0) is a knot of both axes
         hr, hz = (rhi - rlo) / (nr - 1), (zhi - zlo) / (nz - 1)
         ir, iz = int(math.floor((r0 - rlo) / hr)), int(math.floor((z0 - zlo) / hz))
         r = r0 + (np.arange(nr) - ir) * hr          # r[ir] == R0 exactly, r[0] in [rlo, rlo + hr)
         z = z0 + (np.arange(nz) - iz) * hz
+        xoff = (np.arange(nr) - ir) * hr            # exact knot offsets from R0 (antisymmetric about knot ir)
     else:
         r, z = np.linspace(rlo, rhi, nr), np.linspace(zlo, zhi, nz)
+    if sym:                                         # z[k] == -z[nz-1-k] exactly; z = 0 is a knot row when nz is odd
+        z = (2 * np.arange(nz) - (nz - 1)) * (zhi / (nz - 1))
     rr, zz = np.meshgrid(r, z, indexing="ij")
     psi0, dd, eps = spec["psi0"], spec["D"], spec["eps"]
-    psi = psi0 + dd * u(rr, zz)
+    if sym and xoff is not None and spec["family"] == "ellipse":
+        # psi from the exact offsets: psi[ir+k, j] == psi[ir-k, j] bit for bit (differs from u(r, z) by rounding only)
+        psi = psi0 + dd * ((xoff[:, None] ** 2 + zz ** 2 / (k * k)) / (a * a))
+    else:
+        psi = psi0 + dd * u(rr, zz)
     nf = spec["nf"]
     xf = np.linspace(0.0, 1.0, nf)
     fprof = np.array([xf, spec["f0"] * (1 + spec["falpha"] * (1 - xf))])
@@ -411,12 +465,24 @@ def make_points(case, b):
         out.append((rmin + u * sr, zmin + v * sz, 0.0 if k % 5 == 0 else (2 * w - 1) * math.pi))
     nv = len(b.poly)
     out.append((b.axis[0], b.axis[1], 1.0))          # the magnetic axis itself, in every case
+    fixed = []
+    if b.spec.get("sym", False):                     # symmetric class: midplane (z = +-0.0) and axis-column points in every case
+        for k in range(8):
+            u, v = (o[1] + k * _A1) % 1.0, (o[0] + k * _A2) % 1.0
+            fixed.append((rmin + u * sr, 0.0 if k % 2 == 0 else -0.0, 0.0 if k == 0 else (2 * v - 1) * math.pi))
+        for k in range(4):
+            v = (o[2] + k * _A2) % 1.0
+            fixed.append((b.axis[0], zmin + v * sz, (2 * v - 1) * math.pi))
     for p in case["pts"]:
         t, a1, a2 = p[0], p[1], p[2]
         if t == "u":
             out.append((rmin + a1 * sr, zmin + a2 * sz, p[3]))
         elif t == "probe":
             out.append((a1, a2, p[3]))
+        elif t == "mid":
+            out.append((rmin + a1 * sr, b.axis[1] if b.axis[1] != 0.0 else a2, p[3]))
+        elif t == "vline":
+            out.append((b.axis[0], zmin + a1 * sz, p[3]))
         elif t == "ax":
             out.append((b.axis[0] + a1 * b.minor * math.cos(a2), b.axis[1] + a1 * b.minor * math.sin(a2), p[3]))
         elif t == "lcfs":
@@ -429,9 +495,11 @@ def make_points(case, b):
         else:
             i, j = int(round(a1 * (len(b.r) - 1))), int(round(a2 * (len(b.z) - 1)))
             out.append((b.r[i], b.z[j], p[3]))
+    npts = len(case["pts"])
+    out.extend(fixed)
     arr = np.array(out, dtype=float)
     noex = np.zeros(len(out), dtype=bool)
-    noex[n + 1:] = [p[0] == "probe" for p in case["pts"]]
+    noex[n + 1:n + 1 + npts] = [p[0] == "probe" for p in case["pts"]]
     b.noex = noex
     r = np.clip(arr[:, 0], rmin, rmax)
     z = np.clip(arr[:, 1], zmin, zmax)
@@ -533,6 +601,8 @@ def analytic(b, r, z):
 # ================================================================================================ common pieces
 def _eq_labels(ctx, b):
     ctx.label("eq:" + b.name, "sign:negative" if b.dpsi < 0 else "sign:positive")
+    if b.spec.get("sym", False):
+        ctx.label("symmetric:negative" if b.dpsi < 0 else "symmetric:positive")
     if b.spec["kind"] != "synth" and not (b.spec["s"] == 1.0 and b.spec["c"] == 0.0):
         ctx.label("eq:affine-variant")
 
@@ -694,7 +764,15 @@ def run_basis(case, ctx):
     for i in range(len(r)):
         ri, zi = float(r[i]), float(z[i])
         with ctx.cut("basis evaluation"):
-            bv, t, p, nn = _v(eq.b_field(ri, zi)), _v(eq.toroidal_vector(ri, zi)), _v(eq.poloidal_vector(ri, zi)), _v(eq.surface_normal(ri, zi))
+            bv, t = _v(eq.b_field(ri, zi)), _v(eq.toroidal_vector(ri, zi))
+        try:
+            # degenerate points only: |B_pol|^2 may underflow (|B_pol| < 1e-154, not exactly 0) and raysect's normalise() then
+            # raises ZeroDivisionError instead of the zero-vector convenience - outside the statement, tolerated and labelled
+            with ctx.cut("basis evaluation", allowed=(ZeroDivisionError,) if math.hypot(bv[0], bv[2]) < thr else ()):
+                p, nn = _v(eq.poloidal_vector(ri, zi)), _v(eq.surface_normal(ri, zi))
+        except ZeroDivisionError:
+            ctx.label("degenerate", "degenerate:zero-division")
+            continue
         where = "(%r, %r) B=%r [%s]" % (ri, zi, bv.tolist(), json.dumps(b.spec))
         ctx.check(np.all(np.isfinite(bv)), "field-finite", lambda: "b_field not finite at " + where)
         ctx.check(abs(np.linalg.norm(t) - 1) <= ALG and abs(t[1] - 1) <= ALG, "toroidal", lambda: "toroidal_vector %r at %s" % (t.tolist(), where))
@@ -710,6 +788,8 @@ def run_basis(case, ctx):
                 ctx.check(ln == 0.0 or abs(ln - 1) <= ALG, "degenerate", lambda: "%s vector %r is neither zero nor unit at %s" % (nm, vec.tolist(), where))
             continue
         good += 1
+        if (bv[0] == 0.0) != (bv[2] == 0.0):      # exactly one in-plane component is 0.0: the basis is well defined, all relations apply
+            ctx.label("one-zero:Br" if bv[0] == 0.0 else "one-zero:Bz")
         ctx.check(abs(np.linalg.norm(p) - 1) <= ALG and abs(np.linalg.norm(nn) - 1) <= ALG, "unit",
                   lambda: "|p| = %r, |n| = %r at %s" % (float(np.linalg.norm(p)), float(np.linalg.norm(nn)), where))
         ctx.check(max(abs(float(t @ p)), abs(float(t @ nn)), abs(float(p @ nn))) <= ALG, "orthogonal",
@@ -783,8 +863,14 @@ def run_vector(case, ctx):
     for i in range(len(r)):
         ri, zi = float(r[i]), float(z[i])
         with ctx.cut("map_vector2d evaluation"):
-            got = _v(f2(ri, zi))
             bv = _v(eq.b_field(ri, zi))
+        deg = math.hypot(bv[0], bv[2]) < thr
+        try:     # degenerate points: ZeroDivisionError from an underflowing |B_pol|^2 is tolerated (see run_basis)
+            with ctx.cut("map_vector2d evaluation", allowed=(ZeroDivisionError,) if deg else ()):
+                got = _v(f2(ri, zi))
+        except ZeroDivisionError:
+            ctx.label("degenerate", "degenerate:zero-division")
+            continue
         is_out = bool(np.all(got == outv))
         msg = None
         if (inside[i] or either[i]) and psin[i] <= 1.0:
@@ -796,6 +882,8 @@ def run_vector(case, ctx):
                     msg = "toroidal component %r, expected %r (degenerate point)" % (float(got @ t), comp[0])
             else:
                 gc = [float(got @ t), float(got @ po), float(got @ no)]
+                if (bv[0] == 0.0) != (bv[2] == 0.0) and not either[i] and max(abs(comp[1]), abs(comp[2])) > tol:
+                    ctx.label("one-zero")          # decided inside point, exactly one in-plane component 0.0, v_p or v_n visible
                 if max(abs(g - c) for g, c in zip(gc, comp)) > tol:
                     msg = "components along (t, p, n) = %r, prescribed %r at psi_n = %r" % (gc, comp, float(psin[i]))
                 elif not either[i] and any(abs(c) > 0 for c in comp) and not np.all(comp[0] * t + comp[1] * po + comp[2] * no == outv):
@@ -813,9 +901,13 @@ def run_vector(case, ctx):
             rr = math.sqrt(xi * xi + yi * yi)
             a = math.atan2(yi, xi)
             ca, sa = math.cos(a), math.sin(a)
-            with ctx.cut("map_vector3d evaluation"):
-                g3 = _v(f3(xi, yi, zi))
-                g2 = _v(f2(rr, zi))
+            try:
+                with ctx.cut("map_vector3d evaluation", allowed=(ZeroDivisionError,) if deg else ()):
+                    g3 = _v(f3(xi, yi, zi))
+                    g2 = _v(f2(rr, zi))
+            except ZeroDivisionError:
+                ctx.label("degenerate:zero-division")
+                continue
 
             def rot(v):
                 return np.array([v[0] * ca - v[1] * sa, v[0] * sa + v[1] * ca, v[2]])
